@@ -129,6 +129,20 @@ def _parse_expr(expr):
 
 
 # ------------------------------------------------------------------------------------ spec evaluation
+SPEC_SHAPE_ERRORS = (KeyError, AttributeError, TypeError, IndexError)
+
+
+def guarded(what, fn, *args):
+    """run a ghost/havoc/exit hook of a contract; a hook that trips over a changed code shape is Unsupported (undecided)"""
+    try:
+        return fn(*args)
+    except SPEC_SHAPE_ERRORS as e:
+        import traceback
+
+        tb = traceback.extract_tb(e.__traceback__)[-1]
+        raise Unsupported(f"{what} does not apply to this shape of the code ({type(e).__name__}: {e} at {tb.filename.split('/')[-1]}:{tb.lineno})")
+
+
 class SpecInterp:
     """Evaluate a python expression string to a formula (python bool or z3 Bool) without forking."""
 
@@ -140,6 +154,9 @@ class SpecInterp:
             return self._formula(expr, S, extra)
         except PyRaise as pr:
             raise Unsupported(f"specification clause {expr!r} raised {pr.exc.cls.name} {pr.exc.fields.get('args')}")
+        except SPEC_SHAPE_ERRORS as e:
+            # the clause speaks about a local, field or result shape the code no longer has: undecided, not a crash
+            raise Unsupported(f"specification clause {getattr(expr, '__name__', expr)!r} does not apply to this shape of the code ({type(e).__name__}: {e})")
 
     def _formula(self, expr, S, extra=None):
         if callable(expr):
@@ -161,6 +178,8 @@ class SpecInterp:
             return self._value(expr, S, extra)
         except PyRaise as pr:
             raise Unsupported(f"specification expression {expr!r} raised {pr.exc.cls.name} {pr.exc.fields.get('args')}")
+        except SPEC_SHAPE_ERRORS as e:
+            raise Unsupported(f"specification expression {getattr(expr, '__name__', expr)!r} does not apply to this shape of the code ({type(e).__name__}: {e})")
 
     def _value(self, expr, S, extra=None):
         if callable(expr):
@@ -328,7 +347,7 @@ class LoopSpec:
 
     def ghost_pre(self, it, env):
         if self.ghost:
-            self.ghost(it, env, "init")
+            guarded("loop ghost (init)", self.ghost, it, env, "init")
             return True
         return False
 
@@ -359,7 +378,7 @@ class LoopSpec:
             else:
                 raise Unsupported(f"loop {lname}: cannot havoc variable {name!r} of type {type(v).__name__}; give a shape")
         if self.havoc_fn:
-            self.havoc_fn(it, env)
+            guarded("loop havoc", self.havoc_fn, it, env)
 
     def assume(self, it, env, lname):
         if getattr(self, "ghost_loop", False):
@@ -383,7 +402,7 @@ class LoopSpec:
 
     def preserve(self, it, env, lname, snap):
         if self.ghost:
-            self.ghost(it, env, "step")
+            guarded("loop ghost (step)", self.ghost, it, env, "step")
         if self.ghost_loop:
             env.vars["_done"] = env.vars["_done_next"]
             from .models_path import SeqStr
@@ -581,7 +600,7 @@ def run_unit(c: Contract, repo, opts=None):
             outcome = ("raise", pr.exc)
         it.cancellable = False
         if c.exit_hook is not None:
-            c.exit_hook(S, outcome)
+            guarded("exit hook", c.exit_hook, S, outcome)
         if outcome[0] == "return":
             for cl in c.post + c.any_exit:
                 ctx.check(f"{c.qualname}/post:{cl.name}", _b(sp.formula(cl.expr, S)), info={"props": cl.props})
